@@ -1714,7 +1714,16 @@ class Generator:
             return None
         if self.rng.random() < 0.35:
             self.follow.append({'op': 'servers_reload_all'})
-            return {'op': 'srv_delete', 'name': self.rng.choice(names),
+            if self.rng.random() < 0.7:
+                # ... handled, and the next cycle (whose crash points the
+                # quick tier of C10 then enumerates) re-places the instances
+                self.follow.extend([{'op': 'drain'},
+                                    {'op': 'master_cycle', 'focus': True}])
+            stored = world.stored_placement()
+            busy = sorted({s for recs in stored.values() for s, _d in recs
+                           if s in names})
+            pool = busy if busy and self.rng.random() < 0.7 else names
+            return {'op': 'srv_delete', 'name': self.rng.choice(pool),
                     'raw': True}
         return {'op': 'srv_delete', 'name': self.rng.choice(names)}
 
@@ -1899,6 +1908,20 @@ class Generator:
         return {'op': 'srv_delete', 'name': self.rng.choice(servers),
                 'raw': True}
 
+    def g_undefined_server_event(self, world):
+        """The definition of a server that holds instances is deleted and the
+        running master is told with the list-less 'servers' event; the next
+        cycle re-places the instances (C10 enumerates its crash points)."""
+        stored = world.stored_placement()
+        servers = sorted({s for recs in stored.values() for s, _d in recs
+                          if world.zk.nodes.get(z.path.server(s))})
+        if not servers:
+            return None
+        self.follow.extend([{'op': 'servers_reload_all'}, {'op': 'drain'},
+                            {'op': 'master_cycle', 'focus': True}])
+        return {'op': 'srv_delete', 'name': self.rng.choice(servers),
+                'raw': True}
+
     def g_pending_start_then_down(self, world):
         """Instances are placed but have not reported running when the
         pending-start check notes them; then their server goes down and stays
@@ -2020,6 +2043,7 @@ OP_WEIGHTS = [
     ('pending_start_then_down', 2), ('servers_reload_all', 1),
     ('undefined_server_failover', 5), ('stale_record_failover', 3),
     ('m_probe', 0), ('bucket_deleted_failover', 2),
+    ('undefined_server_event', 4),
 ]
 
 
